@@ -70,6 +70,8 @@ MJ_ASSUMPTIONS = [
     "formula tolerance |got-want| <= 1e-4 + 1e-5|want| (+ float32 cast slack 4*eps32*(1+max|qpos|)/dt per "
     "unit weight for velocity terms on C-engine data); data fidelity 1e-3 + 1e-3|want| only on steps where "
     "the C engine has ncon == 0 before and after every sub-step and MJX's nearest geom distance > 1e-3",
+    "one-step data fidelity also excludes steps in which a joint limit is violated by more than 0.5 rad/m "
+    "(only reachable through the wide reset noise of InvertedDoublePendulum)",
     "termination / survive-reward disagreements that flip under a 4e-6 relative perturbation of the loaded "
     "data are float32-vs-float64 threshold ties: excluded and counted (termination_boundary_ambiguous)",
     "HumanoidStandup uph_cost_weight is not varied: Gymnasium v5 itself ignores that argument",
@@ -595,6 +597,7 @@ def _contact_trace(h, qpos, qvel, action):
     mujoco.mj_forward(m, d)
     ncon = [int(d.ncon)]
     nefc = [int(d.nefc) - 0]
+    deep = [float(np.min(d.efc_pos[:d.nefc])) if d.nefc else 0.0]
     d.ctrl[:] = action
     hstep = float(m.opt.timestep)
 
@@ -611,7 +614,8 @@ def _contact_trace(h, qpos, qvel, action):
         mujoco.mj_step(m, d)
         ncon.append(int(d.ncon))
         nefc.append(int(d.nefc))
-    return ncon, nefc
+        deep.append(float(np.min(d.efc_pos[:d.nefc])) if d.nefc else 0.0)
+    return ncon, nefc, min(deep)
 
 
 def _run_config(h, nkeys, nsteps, nlift):
@@ -774,7 +778,7 @@ def _run_config(h, nkeys, nsteps, nlift):
                                     "info_with_reset_kinematics": {k: want1[3][k] for k in diffk[:6]}, **wit})
 
             # ------------ M3 + M2r: a real Gymnasium step from the same (qpos, qvel, action)
-            ncon, nefc = _contact_trace(h, qpos, qvel, a)
+            ncon, nefc, deepest = _contact_trace(h, qpos, qvel, a)
             h.g_reset_to(h.gd, qpos, qvel)
             c_before = _snapshot(h.gd.data, h.plan)
             gobs, grew, gterm, _, ginfo = h.gd.step(np.asarray(a, np.float64))
@@ -783,7 +787,12 @@ def _run_config(h, nkeys, nsteps, nlift):
             c_after = _snapshot(h.gd.data, h.plan)
             ldist = float(ldist)
             ldist0 = float(ldist0) if (not first and not (lifted and t == 0)) else np.inf
-            contact_free = max(ncon) == 0 and min(ldist, ldist0) > _CLEARANCE
+            # a joint limit violated by more than 0.5 rad / m only happens for teleported states (the wide-noise
+            # reset of InvertedDoublePendulum puts the cart metres beyond its rail): stiff impact regime in which the
+            # two constraint solvers legitimately differ, like a fresh contact
+            contact_free = max(ncon) == 0 and min(ldist, ldist0) > _CLEARANCE and deepest > -0.5
+            if max(ncon) == 0 and deepest <= -0.5:
+                ctx.monitor("data_fidelity_inconclusive_by_deep_limit_violation")
 
             if not lifted:
                 # M2r: lerax's formulas on the C engine's data
